@@ -290,6 +290,17 @@ func genC04(g *G) {
 	for n := 0; n <= 20; n++ {
 		g.Emit("toarpa", H(make([]byte, n)))
 	}
+	// one byte of a canonical name with bit 5 flipped (what a careless case fold confuses: '.'/0x0e,
+	// '-'/0x0d, '6'/0x16, digits/0x10..0x19, letters/their other case), at every position
+	for _, name := range []string{"4.3.2.1.in-addr.arpa", "10.in-addr.arpa", strings.Repeat("a.", 32) + "ip6.arpa", "1.0.f.ip6.arpa"} {
+		for i := 0; i < len(name); i++ {
+			for _, mask := range []byte{0x20, 0x40, 0x80} {
+				b := []byte(name)
+				b[i] ^= mask
+				emitRev(g, revAll, string(b))
+			}
+		}
+	}
 	// roots, wrong roots, look-alikes
 	for _, s := range []string{"in-addr.arpa", "ip6.arpa", "IN-ADDR.ARPA", "İn-addr.arpa", "4.3.2.1.İn-addr.arpa", "xin-addr.arpa", "xip6.arpa", ".in-addr.arpa",
 		"in-addr.arpa.", "in-addr.arpa..", "aa.ip6.arpa", "ab.1.ip6.arpa", "xa.ip6.arpa", "00.in-addr.arpa", "00.1.in-addr.arpa", "000.10.in-addr.arpa",
